@@ -169,6 +169,11 @@ var c13stackBuf = make([]byte, 1<<20)
 
 // c13goroutines reports whether every goroutine running pkg/timer code is parked in a select (or a
 // channel receive), how many there are, and the first offending state.
+// goroutines an earlier case left behind for good (only under a defect of the code: a case that leaks is reported
+// once, its goroutines are then not looked at any more — otherwise every later case would find the process "busy")
+var c13leakedIDs = map[string]bool{}
+var c13lastIDs []string
+
 func c13goroutines() (quiet bool, n int, why string) {
 	k := runtime.Stack(c13stackBuf, true)
 	for k == len(c13stackBuf) {
@@ -176,16 +181,25 @@ func c13goroutines() (quiet bool, n int, why string) {
 		k = runtime.Stack(c13stackBuf, true)
 	}
 	quiet = true
+	c13lastIDs = c13lastIDs[:0]
 	for _, blk := range bytes.Split(c13stackBuf[:k], []byte("\n\n")) {
 		// a goroutine that has not run yet shows only its `go` wrapper and its creator
 		if !bytes.Contains(blk, []byte("/pkg/timer.")) && !bytes.Contains(blk, []byte("main.c13start")) {
 			continue
 		}
-		n++
 		hdr := blk
 		if i := bytes.IndexByte(blk, '\n'); i >= 0 {
 			hdr = blk[:i]
 		}
+		gid := string(hdr)
+		if i := strings.Index(gid, " ["); i >= 0 {
+			gid = gid[:i]
+		}
+		if c13leakedIDs[gid] {
+			continue
+		}
+		c13lastIDs = append(c13lastIDs, gid)
+		n++
 		st := ""
 		if i := bytes.IndexByte(hdr, '['); i >= 0 {
 			st = string(hdr[i+1:])
@@ -196,12 +210,8 @@ func c13goroutines() (quiet bool, n int, why string) {
 		switch st {
 		case "select", "chan receive":
 		case "chan send":
-			// the inner dateTimeTimer of a cycle whose recurringTimer has already returned on
-			// ctx.Done() stays parked on its internal channel for ever (only after a racing cancel)
-			if bytes.Contains(blk, []byte("recurringTimer.func1")) {
-				n--
-				continue
-			}
+			// (the start timer of a cycle used to stay parked on its internal channel for ever when the cycle had
+			// already returned on ctx.Done(): D41, repaired in /repo c8d2e82 — no longer tolerated here)
 			quiet = false
 			if why == "" {
 				why = st
@@ -281,7 +291,7 @@ func c13list(xs []int64) string {
 }
 
 // goroutines of earlier cases that ignored the cancellation (only under a defect of the code)
-var c13leaks, c13leakedBase = 0, 0
+var c13leaks = 0
 
 const c13maxLeaks = 150
 
@@ -295,10 +305,10 @@ func (r *c13run) finish() (left int) {
 	deadline := time.Now().Add(wait)
 	for i := 0; ; i++ {
 		_, n, _ := c13goroutines()
-		if n <= c13leakedBase {
+		if n <= 0 {
 			return 0
 		}
-		left = n - c13leakedBase
+		left = n
 		if !r.closed {
 			select {
 			case _, ok := <-r.ch:
@@ -309,7 +319,9 @@ func (r *c13run) finish() (left int) {
 			}
 		}
 		if i > 20 && time.Now().After(deadline) {
-			c13leakedBase = n
+			for _, gid := range c13lastIDs {
+				c13leakedIDs[gid] = true
+			}
 			c13leaks++
 			return
 		}
